@@ -83,7 +83,10 @@ func (ctx *Context) Parse(value string) error {
 	d.ctx = ctx
 	d.pendingCustomDice = nil
 	ctx.Error = nil
-	ctx.NumOpCount = 0
+	if ctx.subThreadDepth == 0 {
+		// 子虚拟机(函数体/computed 的按需编译)沿用调用者累计的算力，不能在这里清零，否则递归调用永远不会触发算力上限
+		ctx.NumOpCount = 0
+	}
 	ctx.detailCache = ""
 
 	// 开始解析，编译字节码
